@@ -129,7 +129,20 @@ where
     {
         use self::frame::read_frame_into;
 
-        while read_frame_into(&mut self.inner, &mut self.buf)?.is_some() {
+        loop {
+            if read_frame_into(&mut self.inner, &mut self.buf)?.is_none() {
+                // At the end of the stream, replace the current block with an empty block so that
+                // its data is neither reported as read nor served again.
+                self.block.set_position(self.position);
+                self.block.set_size(0);
+
+                let data = self.block.data_mut();
+                data.set_position(0);
+                data.resize(0);
+
+                break;
+            }
+
             f(&self.buf, &mut self.block)?;
 
             self.block.set_position(self.position);
